@@ -3,9 +3,9 @@
    Model: Model/Organise.v (segmentation, RowAppendableArray, worker slices, neighbour info, samples),
           Model/ReduceMask.v (decision skeleton of data_reduce._get_valid_index; tied to the code bit for bit by
           the correspondence, its geometric soundness H_red is a HYPOTHESIS below, not proved). *)
-From Coq Require Import ZArith List Bool Lia Arith Permutation.
-From PR Require Import Base.ZX Base.ListX Base.Slice Model.Partition Model.Organise
-     Proofs.C19_partition Proofs.C19_raa Proofs.C03_org Proofs.C03_pipe.
+From Coq Require Import Reals ZArith List Bool Lia Arith Permutation.
+From PR Require Import Base.ZX Base.ListX Base.Slice Base.Num Base.RNum Model.Partition Model.Organise Model.ReduceMask
+     Proofs.C19_partition Proofs.C19_raa Proofs.C03_org Proofs.C03_pipe Proofs.C03_refuted.
 Import ListNotations.
 Local Close Scope Z_scope.
 Local Open Scope nat_scope.
@@ -96,6 +96,24 @@ Proof.
   - apply (reduce_sample _ _ _ _ _ _ _ _ _ _ (pick_w fill weigh)); auto. intros r. apply w_row_agrees. exact tvalid.
 Qed.
 Print Assumptions C03_reduce_sound_if.
+
+(* H_red does NOT hold for the snapshot's data_reduce._get_valid_index (Model/ReduceMask.legacy_win, which the
+   correspondence ties to the code bit for bit), over the reals with the true sine: for the 2 x 2 longlat grid
+   10..20E / 80..85N (pixel centres 12.5/17.5E, 83.75/81.25N)
+   (1) the source (11E, 83.75N) is 18 km (chord) from the pixel (12.5E, 83.75N) but outside the longitude window
+       buffered by degrees(r / (sin(max|lat|) R)) for r = 50 km  [replayed on the implementation: KNOWN finding lon_window];
+   (2) the source (12.5E, 58.7N) is within r = 2500 km (chord) of the pixel (12.5E, 81.25N) but outside the latitude window
+       buffered by degrees(r / R)                                [KNOWN finding lat_window.large_radius]. *)
+Theorem C03_snapshot_reduce_refuted :
+  exists (Wt : sides (T := R)),
+    (exists (r : R) (t s : R * R), In (fst t) (lo1 Wt) /\ In (snd t) (la1 Wt) /\ (chord s t < r)%R /\
+        in_lon RO pymodR (legacy_win RO sin Wt r) (fst s) = false /\ in_lat RO (legacy_win RO sin Wt r) (snd s) = true /\
+        keep RO pymodR (legacy_win RO sin Wt r) s = false)
+    /\ (exists (r : R) (t s : R * R), In (fst t) (lo4 Wt) /\ In (snd t) (la3 Wt) /\ (chord s t < r)%R /\
+        in_lat RO (legacy_win RO sin Wt r) (snd s) = false /\
+        keep RO pymodR (legacy_win RO sin Wt r) s = false).
+Proof. exact snapshot_reduce_refuted. Qed.
+Print Assumptions C03_snapshot_reduce_refuted.
 
 (* non-vacuity: sources on a line at 0, 10, 20, 35 (35 flagged illegal), targets at 9 and 22, radius 5, a mask that
    drops source 0 (too far from both targets): H_red holds, the mask is not trivial, and the result is not all fill *)
